@@ -6,25 +6,26 @@ _REG = None
 PROPS = ["C%02d" % i for i in range(1, 21)]
 
 # modules each property is anchored in: (modules, floor of functions examined, floor of self-attribute reads)
+# floors (functions, attribute reads) guard against a rule that looks at nothing: well below today's counts
 GEN_SCOPE = {
-    "C01": (("removeOverlap", "force", "vpsc", "node"), 70, 150),
-    "C02": (("removeOverlap", "force", "vpsc", "node"), 70, 150),
-    "C03": (("removeOverlap", "force", "vpsc", "node"), 70, 150),
-    "C04": (("distributor", "force", "node"), 35, 60),
-    "C05": (("vpsc",), 45, 80),
-    "C06": (("distributor", "force", "node", "removeOverlap"), 38, 60),
-    "C07": (("timeline", "renderer", "utils", "node"), 70, 150),
-    "C08": (("timeline", "renderer", "node"), 65, 150),
-    "C09": (("timeline", "renderer", "utils"), 50, 140),
-    "C10": (("timeline", "renderer", "utils"), 50, 140),
-    "C12": (("scale",), 45, 50),
-    "C13": (("scale",), 45, 50),
-    "C14": (("scale", "d3_time"), 55, 50),
-    "C15": (("scale", "d3_time"), 55, 50),
-    "C16": (("scale", "d3_time"), 55, 50),
-    "C17": (("d3_time",), 12, 10),
-    "C19": (("tex",), 5, 0),
-    "C20": (("utils",), 5, 0),
+    "C01": (("removeOverlap", "force", "vpsc", "node"), 35, 60),
+    "C02": (("removeOverlap", "force", "vpsc", "node"), 35, 60),
+    "C03": (("removeOverlap", "force", "vpsc", "node"), 35, 60),
+    "C04": (("distributor", "force", "node"), 17, 24),
+    "C05": (("vpsc",), 22, 32),
+    "C06": (("distributor", "force", "node", "removeOverlap"), 19, 24),
+    "C07": (("timeline", "renderer", "utils", "node"), 35, 60),
+    "C08": (("timeline", "renderer", "node"), 32, 60),
+    "C09": (("timeline", "renderer", "utils"), 25, 56),
+    "C10": (("timeline", "renderer", "utils"), 25, 56),
+    "C12": (("scale",), 22, 20),
+    "C13": (("scale",), 22, 20),
+    "C14": (("scale", "d3_time"), 27, 20),
+    "C15": (("scale", "d3_time"), 27, 20),
+    "C16": (("scale", "d3_time"), 27, 20),
+    "C17": (("d3_time",), 6, 4),
+    "C19": (("tex",), 2, 0),
+    "C20": (("utils",), 2, 0),
 }
 GEN_NOTE = (
     "  GEN.DEFINED / GEN.ATTRS over every function of the modules the property is anchored in: every local is definitely "
